@@ -622,6 +622,56 @@ fn run_star(case: &Value, args: &Args, rng: &mut Rng) -> Result<(Value, u64), Fa
             return Err(fail("C19:hello-differs", format!("two replicas with the same {}-head set advertise different hello heads", w - 1)));
         }
     }
+    // deep-vs-shallow: the receiver's head lies ABOVE the advertised command's max cut, so the
+    // lookup really walks the storage (and can hit a read fault): S = init -> a1 -> a2 -> a3,
+    // P = init -> b1; S lacks b1 and must sync — with and without faults.
+    {
+        let mut chain = vec![];
+        let mut prev = init.address();
+        for j in 0..3u16 {
+            let c = ACmd::new(ids::basic_id(7, j), Priority::Basic(0), Prior::Single(prev), b'n', &format!("a{j}"));
+            prev = c.address();
+            chain.push(c);
+        }
+        let b1 = ACmd::new(ids::basic_id(8, 0), Priority::Basic(0), Prior::Single(init.address()), b'n', "b1");
+        let mk = |cmds: &[ACmd]| -> Result<Replica, Fail> {
+            let mut r = Replica::new(ids::init_id());
+            let mut sink = ASink::new();
+            let mut t = r.txn();
+            r.deliver(&mut t, &mut sink, std::slice::from_ref(&init)).map_err(|e| fail("tool:star", err_class(&e)))?;
+            for c in cmds {
+                r.deliver(&mut t, &mut sink, std::slice::from_ref(c)).map_err(|e| fail("tool:star", err_class(&e)))?;
+                r.flush(&mut t).map_err(|e| fail("tool:star", err_class(&e)))?;
+            }
+            r.commit(t, &mut sink).map_err(|e| fail("tool:star", err_class(&e)))?;
+            Ok(r)
+        };
+        let mut s = mk(&chain)?;
+        let mut p2 = mk(std::slice::from_ref(&b1))?;
+        let hp2 = p2.hello().map_err(|e| fail("C04:hello-error", err_class(&e)))?;
+        match s.should_sync(hp2) {
+            Ok(true) => {}
+            Ok(false) => return Err(fail("C19:suppressed", "a replica with a longer own branch decided not to sync on a hello for a sibling command it lacks".into())),
+            Err(e) => return Err(fail("C19:error", format!("should_sync_on_hello failed: {}", err_class(&e)))),
+        }
+        if args.opt_bool("faults") {
+            crate::faulty::reset_fetch_count();
+            let _ = s.should_sync(hp2);
+            let m = crate::faulty::fetch_count();
+            for j in 0..m.min(32) {
+                crate::faulty::fail_nth_fetch(Some(j));
+                let r = vrt::catch_any(|| s.should_sync(hp2));
+                crate::faulty::fail_nth_fetch(None);
+                match r {
+                    Ok(Ok(false)) => {
+                        return Err(fail("C19:suppressed-on-read-fault", format!("a read fault at fetch {j} of {m} of the hello lookup made a replica decide not to sync although it lacks the advertised command")))
+                    }
+                    Err(p) => return Err(fail("C19:panic-on-read-fault", format!("should_sync_on_hello panicked on a read fault: {p}"))),
+                    _ => {}
+                }
+            }
+        }
+    }
     Ok((json!({"star": w}), 0))
 }
 
